@@ -64,7 +64,7 @@ ASSUMPTIONS = [
     "uniform cold start is not asserted for hard voting ensembles",
 ]
 PROFILE = {
-    "quick": dict(examples=2000, shards=16, budget_s=100),
+    "quick": dict(examples=4000, shards=16, budget_s=100),
     "thorough": dict(examples=30000, shards=16, budget_s=1100),
 }
 
